@@ -230,7 +230,7 @@ impl C13 {
         for l in &soup_len {
             fams.add(&format!("definition token soup of length {}", l), vec![(SOUP.len() as u64).pow(*l as u32), 2]);
         }
-        fams.add("dependency cycles: length x namespace", vec![cyc_lens.len() as u64, 6]);
+        fams.add("dependency cycles: length x namespace", vec![cyc_lens.len() as u64, 8]);
         fams.add("dependency chains: length x direction", vec![3, 2]);
         fams.add("malformed substances and directives", vec![SUBSTANCE_FILES.len() as u64]);
         fams.add("currency JSON: truncations", vec![json_cuts.len() as u64]);
@@ -354,14 +354,34 @@ fn cycle_text(n: u64, nsidx: u64) -> (String, Vec<String>) {
                 t.push_str(&format!("{} 2 {}\n", nm(i), r));
             }
         }
-        _ => {
+        5 => {
             // reverse textual order
             for i in (0..n).rev() {
                 t.push_str(&format!("{} {} + m\n", nm(i), nm(i + 1)));
             }
         }
+        6 => {
+            // bare aliases (no coefficient): u0 -> u1 -> ... -> u0
+            for i in 0..n {
+                t.push_str(&format!("{} {}\n", nm(i), nm(i + 1)));
+            }
+        }
+        _ => {
+            // bare aliases whose names ALSO read as prefix + base unit: `kb0 kb1`, ... with `b_i !`.
+            // The cycle is reported, yet each alias still evaluates through the prefix reading once
+            // the prefix and the base units are loaded - which the earlier-sorting helper `aaa` ensures.
+            let b = |i: u64| format!("b{:05}", i % n);
+            t.push_str("z !\naaa 1 kz\n");
+            for i in 0..n {
+                t.push_str(&format!("{} !\n", b(i)));
+            }
+            for i in 0..n {
+                t.push_str(&format!("k{} k{}\n", b(i), b(i + 1)));
+            }
+            return (t, vec![format!("k{}", b(0)), format!("3 {} -> k{}", b(0), b(0)), format!("k{} + k{}", b(0), b(0)), format!("units for k{}", b(0))]);
+        }
     }
-    (t, vec![nm(0), "m".to_string()])
+    (t, vec![nm(0), "m".to_string(), format!("3 m -> {}", nm(0))])
 }
 
 impl Space for C13 {
@@ -369,7 +389,7 @@ impl Space for C13 {
         Meta {
             id: "C13",
             level: "exploration",
-            rule: "deviation-bounded: 0 deviations (shipped files) then every single deviation {delete line, duplicate line, swap with next, delete each token, replace each number by 0 / -1} of definitions.units (quick: every 40th line), currency.units and datepatterns.txt; every definitions file of <= 4 (thorough 5) tokens over a 27-token alphabet, loaded into an empty context and into one holding `m !meter`; dependency cycles of length 1..12, 100, 1000, 5000 through 6 namespace shapes (units, prefixes, quantities, substance property, prefix/plural readings, reverse order); forward/backward alias chains of 1000/5000/10000; 14 malformed substance/directive files; currency JSON truncated at every (quick: every 9th) byte, every field deleted or type-replaced (8 edits); date-pattern soups. Oracle: the load returns without panic/abort/stack overflow within the limit; a problem is reported when a deleted single-line definition was needed by another and has no other reading, and for every cycle; afterwards `1 + 1` answers 2 and queries for loaded/missing names do not panic. Non-trivial = all; distinct by the text loaded".into(),
+            rule: "deviation-bounded: 0 deviations (shipped files) then every single deviation {delete line, duplicate line, swap with next, delete each token, replace each number by 0 / -1} of definitions.units (quick: every 40th line), currency.units and datepatterns.txt; every definitions file of <= 4 (thorough 5) tokens over a 27-token alphabet, loaded into an empty context and into one holding `m !meter`; dependency cycles of length 1..12, 100, 1000, 5000 through 8 namespace shapes (units, prefixes, quantities, substance property, prefix/plural readings, reverse order, bare aliases, bare aliases that also read as prefix + base unit); forward/backward alias chains of 1000/5000/10000; 14 malformed substance/directive files; currency JSON truncated at every (quick: every 9th) byte, every field deleted or type-replaced (8 edits); date-pattern soups. Oracle: the load returns without panic/abort/stack overflow within the limit; a problem is reported when a deleted single-line definition was needed by another and has no other reading, and for every cycle; afterwards `1 + 1` answers 2 and queries for loaded/missing names do not panic. Non-trivial = all; distinct by the text loaded".into(),
             assumptions: vec![
                 "expression nesting depth beyond a few hundred is outside the statement's quantifier (chat-size / realistic files)".into(),
                 "the reporting clause is judged only where the harness can prove the deleted definition has no other reading".into(),
@@ -391,7 +411,7 @@ impl Space for C13 {
         } else if f <= ns {
             format!("soup[{}]: {:?}", if d[1] == 0 { "empty ctx" } else { "ctx with m" }, soup_text(d[0], self.soup_len[f - 1]))
         } else if f == ns + 1 {
-            format!("cycle of length {} through {}", self.cyc_lens[d[0] as usize], ["units", "prefixes", "quantities", "a substance property", "prefix/plural readings", "units in reverse order"][d[1] as usize])
+            format!("cycle of length {} through {}", self.cyc_lens[d[0] as usize], ["units", "prefixes", "quantities", "a substance property", "prefix/plural readings", "units in reverse order", "bare aliases", "bare aliases that also read as prefix + base unit"][d[1] as usize])
         } else if f == ns + 2 {
             format!("alias chain of {} {}", [1000, 5000, 10000][d[0] as usize], if d[1] == 0 { "forward" } else { "backward" })
         } else if f == ns + 3 {
